@@ -16,7 +16,7 @@ KINDS = ['file', 'empty', 'tree', 'link_file', 'link_dir', 'link_dangling',
 def config(tier):
     return {
         'level': 'exploration',
-        'cases': 700 if tier == 'quick' else 60000,
+        'cases': 2500 if tier == 'quick' else 60000,
         'budget_s': 50 if tier == 'quick' else 560,
         'floors': {'cases': 200, 'roundtrips_ok': 150, 'history_steps': 100,
                    'parents_recreated': 20, 'from_ancestor': 40,
